@@ -21,8 +21,8 @@ augment / deviation / leafref / grouping targets).  Errors inside the content (s
 not computed but *injected*: `ModSrc.faults` lists (stage, LY_ERR) pairs, and the step of that stage concerning that module
 fails with that code whenever it is reached — so quantifying over all sources quantifies over all failure points.  Failures the bookkeeping itself decides (unresolved import, unknown feature, unsatisfied if-feature, second implemented
 revision, namespace clash) are computed.  Nothing is idealised: `lys_set_features` flips flags in place before anything can
-fail (F4), the previous latest revision loses its flag for good (F50), `LYS_MOD_IMPORTED_REV` sticks (F52), the pending batch of
-an explicit-compile context is dropped as a whole (F51), recompilation issues fresh compiled modules (F24), and the feature
+fail (F4), the previous latest revision loses its flag for good (F130), `LYS_MOD_IMPORTED_REV` sticks (F132), the pending batch of
+an explicit-compile context is dropped as a whole (F131), recompilation issues fresh compiled modules (F24), and the feature
 iterator of the modules hash is carried across modules (F23).
 
 Core Lean only (linked into `lydrv`).
@@ -101,7 +101,7 @@ structure Mod where
   subFeats : List (List Feat) := []
   impRes : List MKey := []            -- `imports[u].module`, filled while the imports are resolved
   parsing : Bool := false
-  broken : Bool := false              -- ghost: added to the context by a `lys_parse_in` that has not (yet) succeeded (F54)
+  broken : Bool := false              -- ghost: added to the context by a `lys_parse_in` that has not (yet) succeeded (F134)
   toCompile : Bool := false
   compiled : Option (Nat × Desc) := none   -- (identity of the compiled nodes, content)
   augBy : List MKey := []
